@@ -5,6 +5,7 @@ import (
 	"encoding/json"
 	"fmt"
 	"os"
+	"reflect"
 	"regexp"
 	"sort"
 	"strings"
@@ -39,6 +40,7 @@ type c14event struct {
 	Elem *Abs     `json:"elem,omitempty"`
 	Mo   int      `json:"mo"`
 	Mr   int      `json:"mr"`
+	Same bool     `json:"same"` // the re-parsed expression is structurally identical to the original (reflect.DeepEqual)
 	Case *c14case `json:"case"`
 }
 
@@ -129,6 +131,7 @@ func runC14(c *c14case) []*c14event {
 				})
 				ev.S2 = ints(s2)
 				ev.Er = safeGet(y, doc)
+				ev.Same = reflect.DeepEqual(x, y)
 			}
 			evs = append(evs, ev)
 		}
